@@ -227,6 +227,10 @@ func (p *Program) FieldsRead(f *Fn, base types.Object, depth int, seen map[*type
 		case *ast.SelectorExpr:
 			if v := fieldOfSel(f.Info, x, base); v != nil {
 				out[v] = true
+				// a promoted field is also recorded under its own identity
+				if leaf, ok := f.Info.Uses[x.Sel].(*types.Var); ok && leaf.IsField() {
+					out[leaf] = true
+				}
 			}
 		case *ast.CallExpr:
 			if depth <= 0 {
